@@ -34,6 +34,54 @@ type Emitter struct {
 	StripLiterals bool
 }
 
+// Precedence of the boolean, negation and comparison expressions of the model, loosest first, as the openCypher
+// grammar nests them. Every other expression binds tighter than all of these.
+const (
+	precedenceDisjunction = iota + 1
+	precedenceExclusiveDisjunction
+	precedenceConjunction
+	precedenceNegation
+	precedenceComparison
+	precedenceAtom
+)
+
+func operandPrecedence(expression cypher.Expression) int {
+	switch expression.(type) {
+	case *cypher.Disjunction:
+		return precedenceDisjunction
+	case *cypher.ExclusiveDisjunction:
+		return precedenceExclusiveDisjunction
+	case *cypher.Conjunction:
+		return precedenceConjunction
+	case *cypher.Negation:
+		return precedenceNegation
+	case *cypher.Comparison:
+		return precedenceComparison
+	default:
+		return precedenceAtom
+	}
+}
+
+// writeOperand writes an operand of an expression with the given precedence. An operand that binds looser than
+// its parent is parenthesised; without that the emitted text regroups when it is parsed again, e.g. a conjunction
+// holding the exclusive disjunction (a xor b) and c would be emitted as: a xor b and c.
+func (s Emitter) writeOperand(output io.Writer, parentPrecedence int, operand cypher.Expression) error {
+	if operandPrecedence(operand) >= parentPrecedence {
+		return s.WriteExpression(output, operand)
+	}
+
+	if _, err := io.WriteString(output, "("); err != nil {
+		return err
+	}
+
+	if err := s.WriteExpression(output, operand); err != nil {
+		return err
+	}
+
+	_, err := io.WriteString(output, ")")
+	return err
+}
+
 func NewCypherEmitter(stripLiterals bool) Emitter {
 	return Emitter{
 		StripLiterals: stripLiterals,
@@ -468,16 +516,8 @@ func (s Emitter) WriteExpression(output io.Writer, expression cypher.Expression)
 			return err
 		}
 
-		switch innerExpression := typedExpression.Expression.(type) {
-		case *cypher.Parenthetical:
-			if err := s.WriteExpression(output, innerExpression); err != nil {
-				return err
-			}
-
-		default:
-			if err := s.WriteExpression(output, innerExpression); err != nil {
-				return err
-			}
+		if err := s.writeOperand(output, precedenceNegation, typedExpression.Expression); err != nil {
+			return err
 		}
 
 	case *cypher.IDInCollection:
@@ -555,7 +595,7 @@ func (s Emitter) WriteExpression(output io.Writer, expression cypher.Expression)
 				}
 			}
 
-			if err := s.WriteExpression(output, joinedExpression); err != nil {
+			if err := s.writeOperand(output, precedenceExclusiveDisjunction, joinedExpression); err != nil {
 				return err
 			}
 		}
@@ -568,13 +608,13 @@ func (s Emitter) WriteExpression(output io.Writer, expression cypher.Expression)
 				}
 			}
 
-			if err := s.WriteExpression(output, joinedExpression); err != nil {
+			if err := s.writeOperand(output, precedenceConjunction, joinedExpression); err != nil {
 				return err
 			}
 		}
 
 	case *cypher.Comparison:
-		if err := s.WriteExpression(output, typedExpression.Left); err != nil {
+		if err := s.writeOperand(output, precedenceComparison, typedExpression.Left); err != nil {
 			return err
 		}
 
@@ -597,7 +637,7 @@ func (s Emitter) WriteExpression(output io.Writer, expression cypher.Expression)
 			return err
 		}
 
-		if err := s.WriteExpression(output, typedExpression.Right); err != nil {
+		if err := s.writeOperand(output, precedenceComparison, typedExpression.Right); err != nil {
 			return err
 		}
 
